@@ -572,6 +572,7 @@ def damage(rng, j):
         r, e, p = pick_edge(); e["label"] = "nosuch"
     elif kind == "unknown-lhs": rng.choice(rules)["lhs"] = "nosuch"
     elif kind == "unknown-start": jg["start"] = "nosuch"
+    elif kind in ("terminal-start", "terminal-lhs") and not jg["terminals"]: return None
     elif kind == "terminal-start": jg["start"] = next(iter(jg["terminals"]))
     elif kind == "terminal-lhs": rng.choice(rules)["lhs"] = next(iter(jg["terminals"]))
     elif kind == "wrong-arity":
